@@ -7,6 +7,7 @@ from vf import core
 from vf.worker import call
 
 PROP = "C07"
+TECHNIQUE = "runtime contracts with shadow state: every PythonRegex carries the compiled CPython pattern; accepts() is compared with re.fullmatch on every call"
 RULE = ("patterns generated from an AST of the documented subset (literals, escaped metacharacters, '.', sets and "
         "negated sets with ranges / metacharacters / shortcuts inside, alternation, nested groups, * + ? {m} {m,n} "
         "incl. m=0 and m=n, \\d \\s \\w also under quantifiers) and patterns broken into ones re.compile rejects; "
